@@ -155,6 +155,18 @@ macro_rules! nist_ops {
                 let p = (ProjectivePoint::GENERATOR * s).to_affine();
                 Some(p.to_encoded_point(false).as_bytes().to_vec())
             }
+            /// the uncompressed encoding of a point with x = 0, if the curve has one (y = sqrt(b))
+            pub fn point_x_zero() -> Option<Vec<u8>> {
+                use $krate::elliptic_curve::point::DecompressPoint;
+                use $krate::elliptic_curve::subtle::Choice;
+                let ap: Option<AffinePoint> = AffinePoint::decompress(&FieldBytes::default(), Choice::from(0)).into();
+                Some(ap?.to_encoded_point(false).as_bytes().to_vec())
+            }
+            /// k * G for a small integer k
+            pub fn small_multiple(k: u64) -> Vec<u8> {
+                let p = (ProjectivePoint::GENERATOR * Scalar::from(k)).to_affine();
+                p.to_encoded_point(false).as_bytes().to_vec()
+            }
             /// the encoding of -P
             pub fn neg_pk(pk: &[u8]) -> Option<Vec<u8>> {
                 let ep = EncodedPoint::from_bytes(pk).ok()?;
@@ -287,6 +299,24 @@ impl Kem {
             Kem::P256 => np256::neg_pk(pk),
             Kem::P384 => np384::neg_pk(pk),
             Kem::P521 => np521::neg_pk(pk),
+        }
+    }
+    /// NIST curves: a valid public key whose x coordinate is 0 (y = sqrt(b)); None for X25519
+    pub fn point_x_zero(self) -> Option<Vec<u8>> {
+        match self {
+            Kem::X25519 => None,
+            Kem::P256 => np256::point_x_zero(),
+            Kem::P384 => np384::point_x_zero(),
+            Kem::P521 => np521::point_x_zero(),
+        }
+    }
+    /// NIST curves: k*G; None for X25519
+    pub fn small_multiple(self, k: u64) -> Option<Vec<u8>> {
+        match self {
+            Kem::X25519 => None,
+            Kem::P256 => Some(np256::small_multiple(k)),
+            Kem::P384 => Some(np384::small_multiple(k)),
+            Kem::P521 => Some(np521::small_multiple(k)),
         }
     }
     /// NIST curves: n - sk (its public key is -P); None for X25519
